@@ -10,7 +10,10 @@ LEVEL_TEXT = ("Proof + correspondence: Coq theorems -- for every string and EVER
               "source; the pre-repair code is shown refuted); explicit vertical-metrics attributes are returned as given; the "
               "derived usWinAscent/usWinDescent/sTypoLineGap are never negative for any input (pre-repair formula shown refuted); "
               "intListToNum sets bit k iff start+k is listed; the vertical tables are built exactly when all three vhea metrics are "
-              "present and the generated .notdef's advance height is never rejected (Info/Vertical.v, after repair F22). The models are compared with normalizeStringForPostscript, "
+              "present and the generated .notdef's advance height is never rejected (Info/Vertical.v, after repair F22). The thirteen "
+              "vertical-metric fallback functions, getAttrWithFallback and the two fallback tables are TRANSLATED from /repo's fontInfoData.py on "
+              "every run (harness/info_from_source.py, fail-closed) and proved equal to the hand model AND to the documented fallbacks stated "
+              "with literal numbers; explicit-wins / derived-fits / a consistency theorem are restated about the translated code. The models are compared with normalizeStringForPostscript, "
               "intListToNum and with the OS/2, hhea, head fields of compiled+reloaded TTF/OTF fonts for random subsets of "
               "present/absent attributes; `explicit_ok` is evaluated in Coq on the implementation's fields. Name-table strings, "
               "CFF top-dict strings, other OS/2/post fields and compile/save/reload totality for non-ASCII names are checked on "
@@ -20,7 +23,7 @@ LEVEL_NOTE = ("Trusted: Coq kernel, hand models (correspondence-tested), constan
               "(upm*0.8, int(upm*1.2)) is modelled exactly; cases where IEEE evaluation differs from the exact value are dropped "
               "and counted. |italicAngle| <= 45 and metrics within int16 are the generator's notion of spec-valid, representable "
               "input.")
-TECHNIQUE = "Coq proofs (PostScript-name cleanliness for all decompositions, explicit-wins, derived-fits, bit packing) + vm_compute correspondence on compiled fonts"
+TECHNIQUE = "Coq proofs (PostScript-name cleanliness for all decompositions, explicit-wins, derived-fits, bit packing; the metric fallbacks translated from source on every run and proved equal to the model and to the documented values) + vm_compute correspondence on compiled fonts"
 IMPORTS = "From U2F Require Import Base.Prelude Geometry.Model Info.PSName Info.Fallback."
 RULE = ("(a) strings over ASCII incl. exception characters/spaces, Latin-1, NBSP and other Zs, full-width forms, CJK, Cyrillic, "
         "combining marks, C0/C1 controls, astral characters -> normalizeStringForPostscript (both allowSpaces) vs the Gallina "
